@@ -9,6 +9,7 @@ from ..core import wire_to_int
 PRELUDE = r'''
 #include "au/au.hh"
 #include "au/units/meters.hh"
+#include "au/units/seconds.hh"
 #include <type_traits>
 using namespace au;
 template <class...> using auv_void_t = void;
@@ -35,7 +36,7 @@ def mag_expr(c):
 
 
 def kid(c):
-    return c["kname"] if c["kname"] != "rat" else "%s_%s_%s" % (c["kname"], c["N"], c["D"])
+    return (c["kname"] if c["kname"] != "rat" else "%s_%s_%s" % (c["kname"], c["N"], c["D"])) + ("" if c.get("samedim", True) else "_xdim")
 
 
 def trait_tu(cases):
@@ -44,7 +45,7 @@ def trait_tu(cases):
         k = kid(c)
         if k not in units:
             units[k] = "KU%d" % len(units)
-            lines.append("using %s = decltype(Meters{} * (%s));" % (units[k], mag_expr(c)))
+            lines.append("using %s = decltype(%s{} * (%s));" % (units[k], "Meters" if c.get("samedim", True) else "Seconds", mag_expr(c)))
     for i, c in enumerate(cases):
         q1 = "Quantity<%s, %s>" % (units[kid(c)], CXX_T[c["R1"]])
         q2 = "Quantity<Meters, %s>" % CXX_T[c["R2"]]
@@ -53,7 +54,7 @@ def trait_tu(cases):
         lines.append('static_assert(std::is_convertible<%s, %s>::value == %s, "A is_convertible %s");' % (q1, q2, ok, tag))
         lines.append('static_assert(std::is_constructible<%s, %s>::value == %s, "B is_constructible %s");' % (q2, q1, ok, tag))
         lines.append('static_assert(auv_can_pass<%s, %s>::value == %s, "C overload %s");' % (q1, q2, ok, tag))
-        lines.append('static_assert(auv_has_common<%s, %s>::value, "D common_type %s");' % (q1, q2, tag))
+        lines.append('static_assert(%sauv_has_common<%s, %s>::value, "D common_type %s");' % ("" if c.get("samedim", True) else "!", q1, q2, tag))
     lines.append("int main() {}")
     return "\n".join(lines) + "\n"
 
@@ -121,6 +122,8 @@ def run(ctx):
                       detail={"case": c, "cfg": cfg, "diag": first})
     ctx.log("trait queries done: %d compiles, %d failing cases" % (ncomp[0], len(fails)))
     # ---- call-site probes
+    xdim = [c for c in cases if not c.get("samedim", True)]
+    cases = [c for c in cases if c.get("samedim", True)]
     same = [c for c in cases if c["R1"] == c["R2"] and c["R1"] in ("i16", "i32", "u32", "i64", "u64", "f64")]
     if ctx.tier == "quick":
         same = [c for c in same if c["R1"] in ("i32", "u64", "f64")]
